@@ -21,7 +21,7 @@ RULE = ("case maps: all lower, per-record random (each record wholly lower or up
         "one letter of at least one record and the upper-case outcome is not a rejection of every record (typing: the record is accepted "
         "in upper case); distinct = distinct (workload item, case map).")
 ASSUMPTIONS = ["sequences over ACGT/acgt", "exceptions compared by class, upper-cased start_overhang / set of blamed module ids, and their rendered message up to letter case"]
-FLOORS = {"c18_assembly_comparisons": 1000, "c18_typing_comparisons": 3000, "c18_error_outcomes_compared": 200, "c18_product_outcomes_compared": 300, "c18_registry_plasmids_typed": 300}
+FLOORS = {"c18_assembly_comparisons": 1000, "c18_typing_comparisons": 3000, "c18_error_outcomes_compared": 200, "c18_product_outcomes_compared": 300, "c18_registry_plasmids_typed": 300, "c18_kit_class_assemblies": 30, "c18_characterize_comparisons": 100}
 MUST_REACH = ["AssemblyManager._generate_modules_map", "DNARegex._transcribe"]
 BUDGET_S = {"quick": 900, "thorough": 7200}
 NEEDS_REGISTRIES = True
@@ -44,6 +44,13 @@ def cases(tier, seed):
         out.append({"kind": "typing", "cls": gen.class_name(c), "seed": seed, "count": per})
     for e in gen.enzyme_names():
         out.append({"kind": "typing-generic", "enzyme": e, "seed": seed, "count": per})
+    # complete assemblies of the kits' own vector and module classes (hand-written structures, methods the kits override)
+    from . import C11
+    for name, _, _, _ in C11.triples():
+        out.append({"kind": "kit-asm", "triple": name, "seed": seed, "count": 6 if tier == "quick" else 600})
+    # typing through the family bases' characterize(): registry plasmids in every spelling
+    for j in range(0, 372, 31):
+        out.append({"kind": "characterize-registry", "from": j, "count": 31 if tier == "thorough" else 6, "seed": seed})
     # the real plasmids of the bundled registries (official overhangs, kb-sized backbones) under the class the registry types them as
     for j in range(0, 372, 12):
         out.append({"kind": "typing-registry", "from": j, "count": 12, "seed": seed, "variants": 3 if tier == "quick" else 12})
@@ -189,6 +196,59 @@ def execute(mat, ctx):
             texts = [C03._plasmid("BsaI", "V", s["v"][0], s["v"][1])] + [C03._plasmid("BsaI", "M", a, b) for a, b in s["mods"]]
             compare_assembly(ctx, rng, V, M, texts, "graph v=%s mods=%s" % (s["v"], s["mods"]))
         ctx.sample({"kind": "graph", "example": mat["sets"][0]}, cap=1)
+    elif kind == "kit-asm":
+        from . import C11
+        from ..core import Ctx
+        t = next(x for x in C11.triples() if x[0] == mat["triple"])
+        for j in range(mat["count"]):
+            rng = gen.rng_for(mat["seed"], PROP, kind, mat["triple"], j)
+            try:
+                built = C11.one_triple(Ctx("C11-as-generator"), *t, rng=rng, inputs_only=True)
+            except RuntimeError:
+                built = None
+            if not built:
+                ctx.count("kit_assembly_skipped_unbuildable")
+                continue
+            sv, mods = built
+            ctx.count("c18_kit_class_assemblies")
+            compare_assembly(ctx, rng, t[1], t[2], [sv] + mods, "%s chain of %d" % (mat["triple"], len(mods)))
+        ctx.sample({"kind": kind, "triple": mat["triple"]}, cap=1)
+    elif kind == "characterize-registry":
+        from .. import regs
+        from moclo.core.parts import AbstractPart
+        from Bio.Seq import Seq
+        from moclo.record import CircularRecord
+        rng = gen.rng_for(mat["seed"], PROP, kind, mat["from"])
+
+        def outcome(base, text):
+            try:
+                e = base.characterize(CircularRecord(Seq(text), "t"))
+                return ("typed", type(e).__name__, str(e.overhang_start()).upper(), str(e.overhang_end()).upper())
+            except RuntimeError:
+                return ("RuntimeError",)
+            except Exception as ex:
+                return ("raised", type(ex).__name__)
+
+        for name, key, cls, record in regs.items()[mat["from"]:mat["from"] + mat["count"]]:
+            if not issubclass(cls, AbstractPart):
+                continue
+            # the family base: the kit class right under AbstractPart whose candidates include this type
+            fam = next((b for b in cls.__mro__[1:] if issubclass(b, AbstractPart) and b is not AbstractPart and b.signature is NotImplemented), None)
+            if fam is None:
+                continue
+            text = str(record.seq)
+            base = outcome(fam, text.upper())
+            for how in ("lower", "per-letter", "mixed-upper-lower-halves"):
+                variant = apply_map(rng, [text], how)[0]
+                ctx.count("evaluations")
+                ctx.count("c18_characterize_comparisons")
+                got = outcome(fam, variant)
+                if base[0] == "typed":
+                    ctx.nontrivial([fam.__name__, key, how])
+                if got != base:
+                    ctx.violation("case-changes-characterize:%s->%s" % (base[0], got[0]), "%s.characterize types registry plasmid %s as %s in upper case and as %s in spelling %r" % (
+                        fam.__name__, key, base[:2], got[:2], how), plasmid=key, registry=name, case_map=how)
+        ctx.sample({"kind": kind, "from": mat["from"]}, cap=1)
     elif kind == "typing-registry":
         from .. import regs
         rng = gen.rng_for(mat["seed"], PROP, kind, mat["from"])
